@@ -46,7 +46,9 @@ OkUnder(D0, e) ==
              cand == Matches(D, e.tree) \cap SourceSet(D, name, e.tree)
          IN /\ e.source = name
             /\ (D = {} => Matches({}, e.tree) \subseteq SourceSet({}, e.source, e.tree))
-            /\ ValidOut(D, e.out, cand, OrdSort(e.sort), e.limit)
+            /\ IF "TypedSourceRepeats" \in D /\ name = "corpus_permanode_types"
+               THEN ValidOutRepeats(D, e.out, cand, [p \in cand |-> Mult(D, e.tree, p)], OrdSort(e.sort), e.limit)
+               ELSE ValidOut(D, e.out, cand, OrdSort(e.sort), e.limit)
     [] e.res = "error" -> MayRefuse(D, e)
     [] OTHER -> FALSE
 
